@@ -182,6 +182,28 @@ def part_dispatch(ctx, drv):
                 gg = {'empty-or-default': mm, 'lib:UnknownDatabaseError': 'default'}.get(got, got)
                 if mm != gg:
                     ctx.diverge('renderer dispatch outcome', reqs[i], m, got)
+        # the caller keeps elements but not the Database: an element's renderings go through the renderers of the database it
+        # belongs to, whoever else still refers to that database
+        import gc
+        for handled in (KINDS[:], ['table', 'enum']):
+            RS, RD = make_renderer(handled, 'S'), make_renderer(handled, 'D')
+            els = elements(PyDBML(SRC, sql_renderer=RS, dbml_renderer=RD))     # the Database object itself is not kept
+            gc.collect()
+            for kind, el in els.items():
+                if kind not in ('table', 'column', 'enum', 'reference', 'project', 'group', 'sticky'):
+                    continue
+                for sql in (True, False):
+                    if sql and kind in DBML_ONLY:
+                        continue
+                    tag = 'S' if sql else 'D'
+                    out = O.run(lambda: el.sql if sql else el.dbml)
+                    want = ('ok', f'<{tag}:{kind}>') if kind in handled else ('ok', '')
+                    ctx.case(core.h(['db-dropped', kind, sql, handled]), True,
+                             sample={'caller_keeps': 'elements only', 'kind': kind, 'sql': sql, 'outcome': out[1][:40]} if kind == 'table' else None)
+                    if out != want:
+                        ctx.fail(f'{kind}.{"sql" if sql else "dbml"} of an element whose Database the caller no longer holds does not go '
+                                 f'through that database\'s configured renderer', {'op': 'db-dropped', 'kind': kind, 'sql': sql, 'handled': handled},
+                                 got=out, want=want)
         # elements deleted from a database configured with custom renderers are detached again
         RS, RD = make_renderer(KINDS[:], 'S'), make_renderer(KINDS[:], 'D')
         db = PyDBML(SRC, sql_renderer=RS, dbml_renderer=RD)
